@@ -38,6 +38,13 @@ fn any_distinct_keys() -> ([u8; 32], [u8; 32], [u8; 32]) {
 /// `stateless_rx`: the receiver is a StatelessTransportState reading under an explicit nonce.
 /// `rx_initiator`: role of the receiver (the peer has the other role).
 pub fn deliver(stateless_rx: bool, rx_initiator: bool) {
+    deliver_pat(stateless_rx, rx_initiator, false)
+}
+
+/// `oneway`: the session comes from a one-way pattern (the initiator must never read: whatever is delivered to it,
+/// including its own messages, is refused; the peer of a one-way responder is the only writer).
+pub fn deliver_pat(stateless_rx: bool, rx_initiator: bool, oneway: bool) {
+    let pattern = if oneway { HandshakePattern::N } else { HandshakePattern::NN };
     let (k1, k2, k3) = any_distinct_keys();
     unsafe {
         // peer P: objects 1 (initiator-egress key k1), 2 (responder-egress key k2); receiver R: 4, 5; stranger: 6, 7
@@ -48,8 +55,8 @@ pub fn deliver(stateless_rx: bool, rx_initiator: bool) {
         CKEY[6] = k3;
         CKEY[7] = k3;
     }
-    let peer = StatelessTransportState::verif_from_parts(Box::new(ICipher::<1>), Box::new(ICipher::<2>), HandshakePattern::NN, 4, [0u8; MAXDHLEN], false, !rx_initiator);
-    let stranger = StatelessTransportState::verif_from_parts(Box::new(ICipher::<6>), Box::new(ICipher::<7>), HandshakePattern::NN, 4, [0u8; MAXDHLEN], false, !rx_initiator);
+    let peer = StatelessTransportState::verif_from_parts(Box::new(ICipher::<1>), Box::new(ICipher::<2>), pattern, 4, [0u8; MAXDHLEN], false, !rx_initiator);
+    let stranger = StatelessTransportState::verif_from_parts(Box::new(ICipher::<6>), Box::new(ICipher::<7>), pattern, 4, [0u8; MAXDHLEN], false, !rx_initiator);
     // two genuine messages of the peer under arbitrary nonces, one of a stranger session
     let j1: u64 = kani::any();
     let j2: u64 = kani::any();
@@ -63,9 +70,13 @@ pub fn deliver(stateless_rx: bool, rx_initiator: bool) {
     let mut m1 = [0u8; DMAX];
     let mut m2 = [0u8; DMAX];
     let mut m4 = [0u8; DMAX];
-    let n1 = peer.write_message(j1, &p1[..l1], &mut m1).unwrap();
-    let n2 = peer.write_message(j2, &p2[..l2], &mut m2).unwrap();
-    let _ = stranger.write_message(j4, &p1[..l1], &mut m4).unwrap();
+    // in a one-way session only the initiator writes: when the receiver under test is the initiator, the "peer
+    // messages" are its own reflected traffic, written by a stateless twin holding the same keys
+    let twin = StatelessTransportState::verif_from_parts(Box::new(ICipher::<1>), Box::new(ICipher::<2>), pattern, 4, [0u8; MAXDHLEN], false, true);
+    let writer = if oneway && rx_initiator { &twin } else { &peer };
+    let n1 = writer.write_message(j1, &p1[..l1], &mut m1).unwrap();
+    let n2 = writer.write_message(j2, &p2[..l2], &mut m2).unwrap();
+    let _ = stranger.write_message(j4, &p1[..l1], &mut m4);
 
     let n_rx: u64 = kani::any();
     let n_tx: u64 = kani::any();
@@ -76,14 +87,14 @@ pub fn deliver(stateless_rx: bool, rx_initiator: bool) {
     let mut out = [0u8; 8];
 
     let (r, rx_after, tx_after, tx_before) = if stateless_rx {
-        let rx = StatelessTransportState::verif_from_parts(Box::new(ICipher::<4>), Box::new(ICipher::<5>), HandshakePattern::NN, 4, [0u8; MAXDHLEN], false, rx_initiator);
+        let rx = StatelessTransportState::verif_from_parts(Box::new(ICipher::<4>), Box::new(ICipher::<5>), pattern, 4, [0u8; MAXDHLEN], false, rx_initiator);
         // the receiver's own message (reflection candidate), under the very nonce it will read with
         let mut m3 = [0u8; DMAX];
         let _ = rx.write_message(n_rx, &p2[..l2], &mut m3);
         (rx.read_message(n_rx, &d[..dlen], &mut out[..cap]), 0, 0, 0)
     } else {
         let (ni, nr) = if rx_initiator { (n_tx, n_rx) } else { (n_rx, n_tx) };
-        let mut rx = TransportState::verif_from_parts(Box::new(ICipher::<4>), ni, Box::new(ICipher::<5>), nr, HandshakePattern::NN, 4, [0u8; MAXDHLEN], false, rx_initiator);
+        let mut rx = TransportState::verif_from_parts(Box::new(ICipher::<4>), ni, Box::new(ICipher::<5>), nr, pattern, 4, [0u8; MAXDHLEN], false, rx_initiator);
         let mut m3 = [0u8; DMAX];
         let _ = rx.write_message(&p2[..l2], &mut m3);
         let txb = rx.sending_nonce();
@@ -94,9 +105,12 @@ pub fn deliver(stateless_rx: bool, rx_initiator: bool) {
     let g1 = eq_prefix(&d, dlen, &m1, n1) && j1 == n_rx;
     let g2 = eq_prefix(&d, dlen, &m2, n2) && j2 == n_rx;
     let fits = dlen >= 16 && cap >= dlen - 16;
-    let expect_ok = n_rx != u64::MAX && fits && (g1 || g2);
+    let expect_ok = n_rx != u64::MAX && fits && (g1 || g2) && !(oneway && rx_initiator);
     kani::cover!(r.is_ok(), "C04 accept reachable");
     kani::cover!(r.is_err() && (g1 || g2), "C04 genuine-but-refused reachable (small buffer / exhausted)");
+    if oneway && rx_initiator {
+        assert!(r.is_err(), "C04: the initiator of a one-way session accepted a transport message (its own, reflected)");
+    }
     if r.is_ok() {
         assert!(g1 || g2, "C04: accepted a byte string that is not the peer's message for this direction and nonce");
     }
@@ -132,6 +146,21 @@ macro_rules! deliver_harness {
     };
 }
 deliver_harness!(c04_q_stateful_rx_responder, false, false);
+#[kani::proof]
+#[kani::unwind(42)]
+pub fn c04_q_oneway_stateless_rx_initiator() {
+    deliver_pat(true, true, true);
+}
+#[kani::proof]
+#[kani::unwind(42)]
+pub fn c04_q_oneway_stateful_rx_responder() {
+    deliver_pat(false, false, true);
+}
+#[kani::proof]
+#[kani::unwind(42)]
+pub fn c04_t_oneway_stateful_rx_initiator() {
+    deliver_pat(false, true, true);
+}
 deliver_harness!(c04_q_stateless_rx_initiator, true, true);
 deliver_harness!(c04_t_stateful_rx_initiator, false, true);
 deliver_harness!(c04_t_stateless_rx_responder, true, false);
